@@ -1052,9 +1052,14 @@ class MindsDBParser(Parser):
 
     # tableau
     @_('LPAREN select RPAREN')
-    @_('LPAREN union RPAREN')
     def select(self, p):
         return p[1]
+
+    @_('LPAREN union RPAREN')
+    def select(self, p):
+        # only with the parentheses the operation can stand where a select is expected
+        p.union.parentheses = True
+        return p.union
 
     # WITH
     @_('ctes select')
